@@ -9,6 +9,14 @@ same script and prints its text.
   build <doc script>   whole documents
   val <value script>   a lone Value (Display, Value::from_str; Array / InlineTable Display too)
   key <bytes>          a lone Key (Display, Key::from_str)
+  toml <kind> <value script> [key]
+                       the same value script read as a toml::Value (crates/toml): kind V a lone value of any kind
+                       (`Display for toml::Value`, read back through toml::de::ValueDeserializer), kind X the entry
+                       `table[key]`, kind T a root table (Display of the Value, toml::to_string / to_string_pretty of the
+                       Value and of the Table, `Display for toml::Table`; read back with toml::from_str / str::parse).
+                       toml::Table is a BTreeMap (keys come out sorted) or, in the `po` build of the harness (feature
+                       preserve_order), an IndexMap (insertion order): the oracle judges both builds, the model is
+                       compared with the default one.
 
 ORACLE (implementation line only; independent of the Coq model): the text must re-parse
 (`parse=ok`), the dump of the re-parsed tree must equal the dump this module computes from the
@@ -35,11 +43,16 @@ from runner import Case
 PROP = "C06"
 TITLE = "Anything built through the API encodes to valid TOML that decodes back"
 COQ_PROPS = "Props/C06.v"
-COQ_PROPS_EXTRA = ["Props/C06toml.v", "Props/C06float.v"]
+COQ_PROPS_EXTRA = ["Props/C06toml.v", "Props/C06float.v", "Props/C06wf.v"]
 DRIVER_NAME = "c06"
 HARNESS = {"bin": "c06"}
-EXTRA_HARNESS = {"dev": ("dev", ())}      # the same scripts against a build with debug assertions and overflow checks
-EXTRA_ORACLE = ["dev"]
+EXTRA_HARNESS = {"dev": ("dev", ()),      # the same scripts against a build with debug assertions and overflow checks
+                 "po": ("release", ("po",))}      # toml::Table = IndexMap (insertion order): the `toml` family only
+EXTRA_ORACLE = ["dev", "po"]
+
+
+def extra_select(case, build):
+    return build != "po" or case.cmd == "toml"
 THEOREMS = []          # filled in at the end of the file
 RULE = ("random finite trees (depth <= 6, fan-out <= 5) built by script through the real constructors: "
         "keys and strings with control characters, quotes, backslashes, newlines, empty / number- / date- / keyword-looking / dotted keys, any Unicode plane; "
@@ -477,6 +490,247 @@ def count_nodes(kvs):
     return n
 
 
+
+# ------------------------------------------------------------------------------------------------
+# the toml::Value / toml::Table family (crates/toml: Display, to_string, to_string_pretty)
+# ------------------------------------------------------------------------------------------------
+NAN_POS = 0x7ff8000000000000
+
+
+def tv_canon(v, po, for_got):
+    """the toml::Value the script builds: a repeated key replaces the value (BTreeMap: sorted by key bytes = String's Ord;
+    IndexMap under `po`: the first position is kept); for_got: a NaN loses its sign when written (serialize_f64: copysign)"""
+    t = v[0]
+    if t == "f" and for_got and float_dec(v[1])[0] == "nan":
+        return ("f", NAN_POS)
+    if t == "A":
+        return ("A", "c", [tv_canon(e, po, for_got) for e in v[2]])
+    if t == "I":
+        es = ordered_insert([(k, tv_canon(e, po, for_got)) for k, e in v[2]])
+        if not po:
+            es.sort(key=lambda kv: kv[0])
+        return ("I", "c", es)
+    return v
+
+
+def _tv_pass(v):
+    """the three loops of `impl Serialize for toml::Value` over a table (Model/TomlDisplay.v c_pass1 / 2 / 3)"""
+    if v[0] == "I":
+        return 3
+    if v[0] == "A" and any(e[0] == "I" for e in v[2]):
+        return 2
+    return 1
+
+
+def _tv_in_order(three, ent):
+    return sorted(ent, key=lambda e: _tv_pass(e[1])) if three else list(ent)      # sorted() is stable
+
+
+def tv_val_order(v):
+    """what an inline text reads back as, in text order (Model/TomlDisplay.v val_order)"""
+    if v[0] == "A":
+        return ("A", "c", [tv_val_order(e) for e in v[2]])
+    if v[0] == "I":
+        return ("I", "c", [(k, tv_val_order(x)) for k, x in _tv_in_order(True, v[2])])
+    return v
+
+
+def _tv_aot_able(l):
+    return bool(l) and all(e[0] == "I" for e in l)
+
+
+def _tv_is_line(v):
+    return v[0] != "I" and not (v[0] == "A" and _tv_aot_able(v[2]))
+
+
+def tv_tab_order(v):
+    """a table written with headers: key/value lines first, then arrays of tables and sub-tables (tab_order)"""
+    if v[0] == "A":
+        return ("A", "c", [tv_tab_order(e) for e in v[2]]) if _tv_aot_able(v[2]) else tv_val_order(v)
+    if v[0] == "I":
+        return ("I", "c", tv_root_order(True, v[2]))
+    return v
+
+
+def tv_root_order(three, m):
+    lines = [(k, x) for k, x in m if _tv_is_line(x)]
+    rest = [(k, x) for k, x in m if not _tv_is_line(x)]
+    return [(k, tv_tab_order(x)) for k, x in _tv_in_order(three, lines) + _tv_in_order(three, rest)]
+
+
+def toml_case(kind, v, key=None, label="toml"):
+    script = kind.encode() + enc_value(v) + (enc_key(key) if kind == "X" else b"")
+    return Case("toml", [script], {"kind": label + "-" + kind, "nodes": count_nodes_value(v) + (1 if kind != "T" else 0)})
+
+
+DT_SHAPES = [((1979, 5, 27), (7, 32, 0, 0), "Z"), ((1979, 5, 27), (0, 32, 0, 999999000), -420), ((1979, 5, 27), (7, 32, 0, 0), None),
+             ((1979, 5, 27), None, None), (None, (7, 32, 0, 500000000), None), ((0, 1, 1), (0, 0, 0, 0), 0),
+             ((9999, 12, 31), (23, 59, 60, 999999999), 1439), ((2000, 2, 29), (23, 59, 59, 1), -1439), (None, (23, 59, 60, 1), None)]
+
+
+def toml_hand_cases():
+    out = []
+    leaves = ([("s", x) for x in STR_POOL] + [("i", z) for z in INT_POOL] + [("f", b) for b in F64_POOL]
+              + [("b", True), ("b", False)] + [("d", d) for d in DT_SHAPES])
+    for l in leaves:                                         # a lone value of every kind; the same as the entry table[k]
+        out.append(toml_case("V", l, label="toml-pool"))
+        out.append(toml_case("X", ("I", "i", [(b"z", ("i", 0)), (b"k", l), (b"a", ("I", "i", []))]), b"k", label="toml-pool"))
+        out.append(toml_case("T", ("I", "i", [(b"v", l), (b"a", ("A", "p", [l, l])), (b"t", ("I", "i", [(b"w", l)])),
+                                              (b"o", ("A", "p", [("I", "i", [(b"u", l)])]))]), label="toml-pool"))
+    one = ("i", 1)
+    tab = lambda es: ("I", "i", es)
+    arr = lambda es: ("A", "p", es)
+    roots = [
+        [],
+        [(b"a", one)],
+        [(b"", one)],
+        [(b"t", tab([]))],
+        [(b"t", tab([(b"u", tab([(b"v", tab([]))]))]))],
+        [(b"only", tab([(b"sub1", tab([])), (b"sub2", tab([(b"subsub", tab([]))]))]))],
+        [(b"e", arr([]))],
+        [(b"e", arr([arr([]), arr([arr([])])]))],
+        [(b"aot", arr([tab([])]))],
+        [(b"aot", arr([tab([]), tab([])]))],
+        [(b"aot", arr([tab([(b"x", one)]), tab([(b"y", tab([(b"z", one)]))])]))],
+        [(b"aot", arr([tab([(b"in", arr([tab([(b"c", one)]), tab([])]))]), tab([(b"in", arr([tab([])]))])]))],
+        [(b"mixed", arr([one, tab([(b"a", tab([(b"b", one)]))])]))],                  # holds a table but is not an array of tables
+        [(b"nest", arr([arr([tab([(b"a", one)])])]))],
+        [(b"z", one), (b"t", tab([(b"y", one)])), (b"a", one)],                     # a value after a sub-table, unsorted
+        [(b"t", tab([(b"y", one)])), (b"m", arr([one, tab([])])), (b"x", one), (b"o", arr([tab([])]))],
+        [(b"a", one), (b"a", ("s", b"again"))],                                     # repeated key
+        [(b"a", tab([])), (b"b", one), (b"a", one)],
+        [(b"a.b", tab([(b"c.d", one)]))],
+        [(b"$__toml_private_datetime", ("s", b"1979-05-27"))],
+        [(b"t", tab([(b"$__toml_private_datetime", ("s", b"x"))]))],
+        [(b"d", ("d", DT_SHAPES[0])), (b"$__toml_private_datetime", ("d", DT_SHAPES[3]))],
+        [(b"f", ("f", 0x8000000000000000)), (b"g", ("f", 0xfff8000000000001)), (b"h", ("f", 0xfff0000000000000)),
+         (b"i", ("i", I64_MIN)), (b"j", ("i", I64_MAX))],
+    ]
+    for m in roots:
+        out.append(toml_case("T", tab(m), label="toml-hand"))
+        for k in {k for k, _ in m}:
+            out.append(toml_case("X", tab(m), k, label="toml-hand"))
+    for k in KEY_POOL:
+        out.append(toml_case("T", tab([(k, one), (k + b"2", tab([(k, tab([(k, one)]))])), (b"o", arr([tab([(k, ("s", k))])]))]),
+                             label="toml-pool-key"))
+    for depth in (1, 2, 7, 20, 40, 60):
+        for how in ("A", "I", "mix"):
+            out.append(toml_case("V", nest_value(depth, ("i", depth), how), label="toml-deep"))
+            out.append(toml_case("T", tab([(b"r", nest_value(depth, ("i", depth), how))]), label="toml-deep"))
+    return out
+
+
+def toml_gen_cases(rng, g, n):
+    out = []
+    for _ in range(n):
+        g.max_depth = rng.choice([1, 2, 3, 4, 5])
+        g.budget = rng.choice([10, 30, 60])
+        x = rng.random()
+        if x < 0.25:
+            out.append(toml_case("V", g.value(0) if rng.random() < 0.7 else g.scalar()))
+            continue
+        m = g.keyed(rng.choice([0, 1, 2, 3, 4, 5]), lambda: g.value(1))
+        root = ("I", "i", m)
+        if x < 0.4 and m:
+            out.append(toml_case("X", root, rng.choice(m)[0]))
+        else:
+            out.append(toml_case("T", root))
+    return out
+
+
+def tv_edit_dump_table(three, m):
+    """the document a table is written as, as toml_edit's parser reads it back (harness tree.rs show_table), in text order:
+    key/value lines (values inline), then arrays of tables A[T{..},..] and sub-tables T{..} (Model/TomlDisplay.v tv_doc)"""
+    lines = [(k, x) for k, x in m if _tv_is_line(x)]
+    rest = [(k, x) for k, x in m if not _tv_is_line(x)]
+    parts = [hexs(k) + "=" + dump_value(tv_val_order(x)) for k, x in _tv_in_order(three, lines)]
+    for k, x in _tv_in_order(three, rest):
+        if x[0] == "I":
+            parts.append(hexs(k) + "=" + tv_edit_dump_table(True, x[2]))
+        else:
+            parts.append(hexs(k) + "=A[" + ",".join(tv_edit_dump_table(True, e[2]) for e in x[2]) + "]")
+    return "T{" + ",".join(parts) + "}"
+
+
+def toml_expected(tree, po):
+    """{field: expected dump} of the observation line for this case and this kind of map"""
+    kind, v, key = tree
+    exp = {}
+    got = tv_canon(v, po, True)
+    built = tv_canon(v, po, False)
+    if kind == "X":
+        got = dict(got[2])[key]
+        built = dict(built[2])[key]
+    exp["built"] = dump_value(built)
+    exp["got_vd"] = dump_value(tv_val_order(got) if po else got)
+    exp["e_vd"] = dump_value(tv_val_order(got))
+    if kind == "T":
+        for name, three in (("e_vs", True), ("e_vp", True), ("e_td", False), ("e_tp", False)):
+            exp[name] = tv_edit_dump_table(three, got[2])
+        for name, three in (("got_vs", True), ("got_vp", True), ("got_td", False), ("got_tp", False)):
+            exp[name] = dump_value(("I", "c", tv_root_order(three, got[2])) if po else got)
+    return exp
+
+
+PRIVATE_KEY = b"$__toml_private_datetime"
+
+
+def _has_private_key(v):
+    if v[0] == "A":
+        return any(_has_private_key(e) for e in v[2])
+    if v[0] == "I":
+        return any(k == PRIVATE_KEY or _has_private_key(e) for k, e in v[2])
+    return False
+
+
+def _judge_toml(case, line, reading=True):
+    f = fields(line)
+    tree = decode_case(case)
+    if "vd" not in f or f.get("map") not in ("bt", "po"):
+        return "malformed observation line: %s" % line[:200]
+    exp = toml_expected(tree, f["map"] == "po")
+    for name, want in exp.items():
+        got = f.get(name)
+        text = name[4:] if name.startswith("got_") else name[2:] if name.startswith("e_") else None
+        if name.startswith("got_") and not reading:
+            continue
+        shown = (b"" if f.get(text, "-") == "-" else bytes.fromhex(f[text])).decode("utf-8", "replace")[:300] if text else ""
+        if got == "ERR":
+            return "the text printed by %s does not parse: %r" % (TOML_ENTRY[text], shown)
+        if got != want:
+            if text:
+                return "the text printed by %s decodes to a different tree (%s): text %r, expected %s, got %s" % (
+                    TOML_ENTRY[text], "toml's reader" if name.startswith("got_") else "toml_edit's parser, text order", shown, want[:300], (got or "")[:300])
+            return "the tree built from the script is not the expected one: expected %s, got %s" % (want[:300], (got or "")[:300])
+    for k in ("twice", "ix", "tseq"):
+        if k in f and f[k] != "ok":
+            return {"twice": "printing is not a pure function of the value (printed twice / after clone)",
+                    "ix": "Value[key] and Table[key] print differently",
+                    "tseq": "Display for toml::Table and toml::to_string(&Table) differ"}[k]
+    return None
+
+
+TOML_ENTRY = {"vd": "Display for toml::Value", "vs": "toml::to_string(&Value)", "vp": "toml::to_string_pretty(&Value)",
+              "td": "Display for toml::Table", "tp": "toml::to_string_pretty(&Table)"}
+
+
+def _compare_toml(case, model_line, impl_line):
+    mf, f = fields(model_line), fields(impl_line)
+    if f.get("map") != "bt":
+        return None
+    names = ("vd", "vs", "td") if decode_case(case)[0] == "T" else ("vd",)
+    for n in names:
+        if n not in mf or n not in f:
+            return "malformed line (model: %s)" % model_line[:120]
+        mt = b"" if mf[n] == "-" else bytes.fromhex(mf[n])
+        it = b"" if f[n] == "-" else bytes.fromhex(f[n])
+        if resolve_markers(mt) != it and not same_modulo_float_ties(mt, it):
+            return "the text of %s differs: model %r, implementation %r" % (TOML_ENTRY[n], resolve_markers(mt)[:200], it[:200])
+        if mf.get("rt_" + n) != "ok":
+            return "the model's own round trip of %s is %s" % (TOML_ENTRY[n], mf.get("rt_" + n))
+    return None
+
+
 TREES = {}      # case line -> python tree (the oracle recomputes from the script if missing)
 
 
@@ -564,7 +818,7 @@ def hand_cases():
 
 
 def gen_cases(rng, tier):
-    out = hand_cases()
+    out = hand_cases() + toml_hand_cases()
     g = Gen(rng)
     n_docs = 4000 if tier == "quick" else 60000      # the shared parser model is super-linear in document size: ~20 ms per document
     n_vals = 4000 if tier == "quick" else 100000
@@ -580,6 +834,7 @@ def gen_cases(rng, tier):
         out.append(val_case(g.value(0), "val"))
     for i in range(n_keys):
         out.append(Case("key", [g.key() if rng.random() < 0.5 else g.string()], {"kind": "key", "nodes": 2}))
+    out += toml_gen_cases(rng, g, 3000 if tier == "quick" else 60000)
     return out
 
 
@@ -666,6 +921,10 @@ def decode_case(case):
         return (mode, rd_tbody(r))
     if case.cmd == "val":
         return rd_value(r)
+    if case.cmd == "toml":
+        kind = chr(r.u8())
+        v = rd_value(r)
+        return (kind, v, r.key() if kind == "X" else None)
     return case.args[0]
 
 
@@ -686,6 +945,8 @@ def _text(f):
 
 
 def _judge(case, line, drop_empty_aot):
+    if case.cmd == "toml":
+        return _judge_toml(case, line)
     f = fields(line)
     if "t" not in f or "parse" not in f:
         return "malformed observation line: %s" % line[:200]
@@ -712,6 +973,12 @@ def oracle(case, line):
 
 
 def known_class(case, line):
+    if case.cmd == "toml" and line is not None and not line.startswith(("PANIC", "CRASH")):
+        # F14 (in-band signalling, known class private-datetime-key of C07 / C13): a table whose first key spells
+        # toml_datetime's private field name is taken for a date-time when the text is READ; writing is not affected
+        if _has_private_key(decode_case(case)[1]) and _judge_toml(case, line, reading=False) is None:
+            return "private-datetime-key"
+        return None
     if case.cmd != "build" or line is None or line.startswith(("PANIC", "CRASH")):
         return None
     tree = decode_case(case)
@@ -723,6 +990,8 @@ def known_class(case, line):
 def compare(case, model_line, impl_line):
     if model_line is None or impl_line is None:
         return "missing line"
+    if case.cmd == "toml":
+        return _compare_toml(case, model_line, impl_line)
     mf, f = fields(model_line), fields(impl_line)
     if "t" not in mf or "t" not in f:
         return "malformed line (model: %s)" % model_line[:120]
@@ -789,9 +1058,18 @@ def _vfeatures(v, acc):
 
 
 def extra_coverage(cases, impl, model):
-    kinds = {"documents": 0, "values": 0, "keys": 0, "max_text_bytes": 0, "max_depth": 0}
+    kinds = {"documents": 0, "values": 0, "keys": 0, "toml_lone_values": 0, "toml_indexed_entries": 0, "toml_root_tables": 0,
+             "max_text_bytes": 0, "max_depth": 0}
     feats = {}
     for c, l in zip(cases, impl):
+        if c.cmd == "toml":
+            tk, tv, _ = decode_case(c)
+            kinds[{"V": "toml_lone_values", "X": "toml_indexed_entries", "T": "toml_root_tables"}[tk]] += 1
+            acc = {}
+            _vfeatures(tv, acc)
+            for k in acc:
+                feats["toml_" + k] = feats.get("toml_" + k, 0) + 1
+            continue
         kinds["documents" if c.cmd == "build" else "values" if c.cmd == "val" else "keys"] += 1
         if l and not l.startswith(("PANIC", "CRASH")):
             kinds["max_text_bytes"] = max(kinds["max_text_bytes"], len(_text(fields(l))))
@@ -820,5 +1098,7 @@ THEOREMS = [
     "C06_built_value / C06_built_document: everything the construction terms (Value::from, Array::new+push / collect, InlineTable::new+insert / collect, Table::new+insert, ArrayOfTables::new+push, DocumentMut::new / from(Table)) evaluate to is inside Built",
     "C06_value_constructed / C06_document_constructed: the two round trips stated on the construction terms themselves",
     "C06_text: the printer's text of a constructed value is the structural text `txt` between its decor (no fuel; printing is a function of the tree: C06_pure is by construction in Gallina, and checked on the implementation by printing twice and printing a clone)",
+    "C06_toml_display / C06_toml_value_built (Props/C06toml.v): the trees toml's serializers hand to the printer for Display of toml::Value / toml::Table and toml::to_string are inside Built; the text parses back to the value, maps in printed order, NaN without its sign — tied to the implementation by the `toml` command (lone values of every kind, table[k], root tables; BTreeMap and IndexMap builds; toml's reader and toml_edit's parser on every text; model text byte for byte for Display and to_string)",
+    "Built_WF / C06_constructed_WF / C06_constructed_print_parse / C06_constructed_both (Props/C06wf.v, proofs by eng-c14 in Proofs/WFBuilt.v): a constructed document without an empty array of tables is well-formed (Spec/WF.v), its text is accepted and decodes to Display's data WITH table kinds; on the same premises C06_document's conclusion holds of the same parsed document",
     "Examples: nesting 79 is read back and 80 refused (values and header paths); a value taken out of an array keeps its blank and does not parse alone; nasty document with value after sub-table, repeated key, empty array of tables",
 ]
